@@ -586,10 +586,19 @@ def align_variable_names_with_convention(
         | constants.BUILTIN_FUNCTIONS
         | constants.PYTHON_KEYWORDS
     )
+    # A use that is claimed by two variables keeps its name, and then so must both variables
+    ambiguous_uses = {
+        (node.id, substitute)
+        for node, substitutes in renamings.items()
+        if isinstance(node, ast.Name) and isinstance(node.ctx, ast.Load) and len(substitutes) > 1
+        for substitute in substitutes
+    }
     renamings = {
         node: list(substitutes)[0]
         for node, substitutes in renamings.items()
-        if len(substitutes) == 1 and blacklisted_names.isdisjoint(substitutes)
+        if len(substitutes) == 1
+        and blacklisted_names.isdisjoint(substitutes)
+        and (getattr(node, "id", getattr(node, "name", None)), list(substitutes)[0]) not in ambiguous_uses
     }
     substitute_node_renamings = collections.defaultdict(set)
     for node, substitute in renamings.items():
